@@ -17,7 +17,7 @@ import ast
 from .astutil import chain, src, walk, stmts, targets_of
 from .model import Unrecognised
 
-SET, TSEQ, HEAP = 'SET', 'TSEQ', 'HEAP'
+SET, TSEQ, HEAP, ORD = 'SET', 'TSEQ', 'HEAP', 'ORD'   # ORD: an ordered collection whose order is observable (Unique / list field)
 
 SET_FIELDS = {'_pairs', '_seen'}
 SET_CTORS = {'set', 'frozenset'}
@@ -117,6 +117,8 @@ class Analysis:
             c = chain(node)
             if c and c[-1] in SET_FIELDS:
                 return SET
+            if c and c[-1] in ORDERED_FIELDS:
+                return ORD
             return None
         if isinstance(node, ast.BinOp) and isinstance(node.op, (ast.BitAnd, ast.BitOr, ast.BitXor, ast.Sub)):
             l, r = self.kind(node.left, func, types), self.kind(node.right, func, types)
@@ -258,7 +260,9 @@ class Analysis:
             if n in nested:
                 continue
             k = self.kind(n, func, types)
-            if k is None:
+            if isinstance(n, ast.Call) and not isinstance(n.func, ast.Attribute):
+                self._ordered_args(func, n, types, via)
+            if k is None or k == ORD:
                 continue
             if isinstance(n, ast.Name) and isinstance(n.ctx, ast.Store):
                 continue
@@ -268,6 +272,19 @@ class Analysis:
         for name, d in func.defaults().items():
             if self.kind(d, func, {}) == SET:
                 self.sources += 1
+
+    def _ordered_args(self, func, call, types, via):
+        """A private helper that receives an ordered collection is analysed with that parameter typed ORD."""
+        callee = self.resolve(call, func)
+        if callee is None:
+            return
+        params = callee.params
+        ptypes = {}
+        for i, a in enumerate(call.args):
+            if i < len(params) and self.kind(a, func, types) == ORD:
+                ptypes[params[i]] = ORD
+        if ptypes:
+            self.analyse(callee, ptypes, via=f'{func.key} -> {callee.key}({", ".join(ptypes)})')
 
     def _emit(self, kind, func, node, what, detail, via=None):
         if via:
@@ -322,13 +339,15 @@ class Analysis:
                 tk = self.kind(par.target, func, types)
                 if tk == SET:
                     return ok('set algebra into a set (unordered)')
-                c = chain(par.target)
-                if (c and c[-1] in ORDERED_FIELDS) or tk is None:
-                    if isinstance(par.op, ast.BitOr):
-                        return bad(f'{src(par.target)} |= <{k}>: an ordered collection is extended in hash order')
-                    if isinstance(par.op, (ast.BitAnd, ast.Sub, ast.BitXor)) and k == SET:
-                        return ok('restricts an ordered collection (membership only)')
-                return unk(f'augmented assignment {src(par)[:60]}')
+                if isinstance(par.op, (ast.BitAnd, ast.Sub)) and k == SET:
+                    return ok('restricts a collection (membership only)')
+                if tk == ORD:
+                    if isinstance(par.op, (ast.BitOr, ast.BitXor, ast.Add)):
+                        return bad(f'{src(par.target)} {"|=" if isinstance(par.op, ast.BitOr) else "op="} <{k}>: an ordered collection is extended in hash order')
+                    return unk(f'augmented assignment {src(par)[:60]}')
+                if isinstance(par.target, ast.Name) and par.target.id in func.params and func.name.startswith('_'):
+                    return ok(f'in-place update of parameter {par.target.id} of a private helper (decided at its call sites with the argument kinds)')
+                return unk(f'augmented assignment into a collection of unknown kind: {src(par)[:60]}')
             return ok('in-place update of the set itself')
         if isinstance(par, ast.Return):
             if k == SET:
